@@ -320,7 +320,7 @@ pub fn case_strategy(mask: Option<u16>) -> BoxedStrategy<Case> {
         port_value(),
         port_value(),
         // a metrics port of 0 is what `antctl add --metrics-port 0` produces; kept rare
-        prop_oneof![40 => port_value(), 1 => Just(0u16)],
+        prop_oneof![120 => port_value(), 1 => Just(0u16)],
         any::<bool>(),
         any::<[u8; 4]>(),
         prop_oneof![2 => Just([127u8, 0, 0, 1]), 1 => Just([0u8, 0, 0, 0]), 2 => any::<[u8; 4]>()],
@@ -1333,7 +1333,7 @@ pub fn run(cfg: RunCfg) {
         vh_core::section!(
             rep,
             "options",
-            (3_000, 60_000),
+            (10_000, 200_000),
             16,
             "presence mask over 14 optional options (uniform / dense / all), evm network 3 kinds (custom: generated url + addresses), ports, ips, peers args within clap's conflict rules, log settings, owner, network id, flags, user/system mode, env, directory names with spaces/quotes/unicode, optional start before the forced upgrade, upgrade inputs; non-trivial: >=3 optional options set incl. one of custom evm / peers args / log settings; distinct by case",
             || case_strategy(None),
